@@ -84,6 +84,11 @@ func collect(v interface{}, path []interface{}, key string, out *[]edit) {
 					*out = append(*out, edit{path, "cv-elem", i})
 				}
 			}
+			if l, ok := x["Map"].([]interface{}); ok {
+				for i := range l {
+					*out = append(*out, edit{path, "cv-mapkey", i}, edit{path, "cv-mapval", i})
+				}
+			}
 		}
 		if isTy {
 			if x["V"] != nil {
@@ -239,6 +244,10 @@ func apply(root interface{}, e edit) interface{} {
 		setNode(zeroCV())
 	case "cv-elem":
 		setNode(node.(map[string]interface{})["List"].([]interface{})[e.arg.(int)])
+	case "cv-mapkey":
+		setNode(node.(map[string]interface{})["Map"].([]interface{})[e.arg.(int)].([]interface{})[0])
+	case "cv-mapval":
+		setNode(node.(map[string]interface{})["Map"].([]interface{})[e.arg.(int)].([]interface{})[1])
 	case "ty-inner":
 		setNode(node.(map[string]interface{})["V"])
 	case "ty-i32":
